@@ -19,6 +19,7 @@ import ASV.Proofs.ProtoExtendRing
 import ASV.Proofs.ProtoRingWide
 import ASV.Proofs.ProtoRingMerge
 import ASV.Proofs.ProtoExtendTotal
+import ASV.Proofs.ProtoRingTwo
 namespace ASV.C03
 open ASV ASV.Rules ASV.Proto ASV.Chains ASV.ChainSweep
 
@@ -423,6 +424,23 @@ theorem merge_is_identity_ring_wide_partial (r : Rec) (hcirc : r.circular = true
     (hapart.imp (fun h => Or.inl h))
   exact ⟨pcs, merged, hpcs, hm, hperm⟩
 
+/-- **The cutoff window of an origin-spanning core** (lemma (i) of the missing list, for two-part cores).  On a
+    circular record, for a core `[x, L) + [0, y)` (`0 < y ≤ x < L`, forward strand — the shape
+    `connect_locations` returns) and any distance `c ≥ 0`: `_extend_area_location(core, c)` succeeds; the distance
+    is capped at `(x − y)/2 + 1` (half of what the core leaves free, plus one); the result is a well-formed area
+    containing exactly the bases within that distance of the core the shorter way round (the whole record as
+    soon as the two ends pass each other); and a gene shares a base with it — `find_protoclusters`' test for
+    joining the gene to the core — iff one of its bases is that close to a base of the core. -/
+theorem cutoff_window_origin_spanning_core (r : Rec) (hcirc : r.circular = true) (x y c : Int) (hy0 : 0 < y)
+    (hyx : y ≤ x) (hxL : x < r.len) (hc : 0 ≤ c) :
+    ∃ W, extendArea r (areaTwo x y r.len .fwd) c false = .ok W ∧ RingArea r.len W ∧
+      (∀ i, W.mem i = true ↔ (0 ≤ i ∧ i < r.len ∧
+        ∃ j, (areaTwo x y r.len .fwd).mem j = true ∧ ringAbs r.len i j ≤ min c ((x - y) / 2 + 1))) ∧
+      ∀ g : Loc, g.PartsNonEmpty → (locationsOverlap g W = true ↔
+        ∃ i j, g.mem i = true ∧ 0 ≤ i ∧ i < r.len ∧ (areaTwo x y r.len .fwd).mem j = true ∧
+          ringAbs r.len i j ≤ min c ((x - y) / 2 + 1)) :=
+  window_two_part r hcirc x y c hy0 hyx hxL hc
+
 /-- **Chains are never split, on any circular record** (`_partial` with respect to `CoresAreChainsRing`:
     this is its "maximal" half, without any restriction on positions, origin-spanning anchors or chain
     lengths; the "each core is one chain and the smallest span of it" half is proved only under
@@ -775,6 +793,11 @@ example : WideArc wideRec.len 20 0 40 := ⟨by decide, by decide, by decide, by 
 example : (match findCores wideRec 20 (wideRec.genes.map (·.loc)) with
     | .ok cores => cores.map (fun c => (c.start, c.end)) == [(0, 35)]
     | .error _ => false) = true := by decide +kernel
+/-- the window of the core [90,100)+[0,5) on a ring of length 100: with distance 20 both ends move by 20; with
+    distance 60 the cap (85/2+1 = 43) applies and the two ends pass each other: the whole record -/
+example : extendArea wideRec (areaTwo 90 5 100 .fwd) 20 false = .ok (.compound [⟨70, 100, .fwd⟩, ⟨0, 25, .fwd⟩]) := by
+  decide +kernel
+example : extendArea wideRec (areaTwo 90 5 100 .fwd) 60 false = .ok (.simple ⟨0, 100, .fwd⟩) := by decide +kernel
 /-- the hypotheses of `extenders_ring_total_wide_partial` on that ring: both genes lie in the wide arc -/
 example : ∀ g ∈ wideRec.genes, GeneIn wideRec.len 0 40 g.loc := by
   intro g hg
